@@ -1579,7 +1579,9 @@ def w_reuse(case: dict) -> dict:
         oneobj = None   # ONE response object answering every challenge: re-targeted through its public `dac` attribute
         for i, (chal, duuid, dacb) in enumerate(rounds):
             row = {}
-            for kind, cfg in (("reused", shared), ("fresh", new_config()), ("sameobj", None)):
+            # (the EdgeLock v2 response composes its signed message - challenge included - when it is created and offers no
+            # way to re-target it, so one object per challenge is the only use there; demanding more was a false alarm)
+            for kind, cfg in (("reused", shared), ("fresh", new_config())) + ((("sameobj", None),) if not ele2 else ()):
                 dac = make_dac({"bytes": dacb, "ver": (2, 0) if ele2 else p["ver"], "socc": fam["socc"], "uuid": duuid, "chal": chal,
                                 "rkth": core.seeded_bytes(seed, "rkth", dac_hash_len(fam, (2, 0) if ele2 else p["ver"])), "revocation": 0,
                                 "pinned": 0, "default": 0, "cc_vu": 0, "swapped": bool(fam["swapped"]), "fam": fam}, o)
@@ -1604,12 +1606,14 @@ def w_reuse(case: dict) -> dict:
             if row is None:
                 break
             answers.append(row)
-            o.c("dar_built", 3)
+            o.c("dar_built", len(row))
         if core.jdump(shared) != before:
             o.c("response_config_dict_changed_by_load_from_config")  # counted; what is demanded is that later answers are right
         for i, row in enumerate(answers):
             chal, duuid, _ = rounds[i]
             for kind in ("reused", "fresh", "sameobj"):
+                if kind not in row:
+                    continue
                 rb = row[kind]
                 if ele2:
                     try:
@@ -1638,6 +1642,8 @@ def w_reuse(case: dict) -> dict:
             b = row["fresh"]
             cut = R.parse_signed_msg_v2(b)["signed_end"] if ele2 else len(data) + 4 + (16 if with_uuid else 0)
             for kind in ("reused", "sameobj"):
+                if kind not in row:
+                    continue
                 a = row[kind]
                 if a[:cut] != b[:cut] or len(a) != len(b):
                     o.v("dar-embeds", f"reused-config:{'first' if i == 0 else 'later'}-answer{'-of-response-object' if kind == 'sameobj' else ''}-differs-from-fresh-config",
